@@ -50,8 +50,10 @@ impl ChanKey {
 #[derive(Clone, Debug)]
 pub struct Site {
     pub chan: ChanKey,
-    /// n-th chunk on that channel (0-based)
+    /// n-th chunk on that channel (0-based); ignored when `stream_off` is set
     pub chunk: usize,
+    /// absolute byte position in the channel's byte stream (independent of how it is chunked)
+    pub stream_off: Option<usize>,
     /// byte offset (taken modulo the chunk length)
     pub offset: usize,
     /// flip:<bit> | add1 | set0 | setff | trunc:<k> | extend:<k> | addle:<width> (little-endian +1 on a width-byte field)
@@ -60,7 +62,7 @@ pub struct Site {
 
 impl Site {
     pub fn to_json(&self) -> Value {
-        json!({"chan": self.chan.to_json(), "chunk": self.chunk, "offset": self.offset, "pattern": self.pattern})
+        json!({"chan": self.chan.to_json(), "chunk": self.chunk, "offset": self.offset, "pattern": self.pattern, "stream_off": self.stream_off})
     }
     pub fn from_json(v: &Value) -> Self {
         Self {
@@ -68,6 +70,14 @@ impl Site {
             chunk: pu(v, "chunk"),
             offset: pu(v, "offset"),
             pattern: ps(v, "pattern").to_string(),
+            stream_off: v.get("stream_off").and_then(Value::as_u64).map(|x| x as usize),
+        }
+    }
+    pub fn list_from_json(v: &Value) -> Vec<Self> {
+        match v {
+            Value::Array(a) => a.iter().map(Self::from_json).collect(),
+            Value::Null => Vec::new(),
+            one => vec![Self::from_json(one)],
         }
     }
 }
@@ -88,7 +98,7 @@ pub struct FaultLog {
 }
 
 pub struct Tamper {
-    pub site: Option<Site>,
+    pub sites: Vec<Site>,
     pub log: StdMutex<FaultLog>,
 }
 
@@ -182,18 +192,27 @@ impl StreamInterceptor for Tamper {
         let seq = log.seq;
         let st = log.chans.entry(key.clone()).or_default();
         let chunk_no = st.chunks;
+        let stream_pos = st.bytes;
         if st.chunks == 0 {
             st.first_seq = seq;
         }
         st.chunks += 1;
         st.bytes += data.len();
         st.max_chunk = st.max_chunk.max(data.len());
-        if let Some(site) = &self.site {
-            if site.chan == key && site.chunk == chunk_no {
+        for site in &self.sites {
+            if site.chan != key {
+                continue;
+            }
+            let hit = match site.stream_off {
+                Some(so) => so >= stream_pos && so < stream_pos + data.len(),
+                None => site.chunk == chunk_no,
+            };
+            if hit {
+                let off = site.stream_off.map_or(site.offset, |so| so - stream_pos);
                 let before = fnv_bytes(FNV0, data);
                 let before_len = data.len();
-                if apply_pattern(&site.pattern, site.offset, data) {
-                    log.fired.push(json!({"chunk_len": before_len, "before": format!("{before:016x}"), "after": format!("{:016x}", fnv_bytes(FNV0, data)), "seq": seq}));
+                if apply_pattern(&site.pattern, off, data) {
+                    log.fired.push(json!({"chunk_len": before_len, "before": format!("{before:016x}"), "after": format!("{:016x}", fnv_bytes(FNV0, data)), "seq": seq, "gate": key.gate}));
                 }
             }
         }
@@ -201,7 +220,11 @@ impl StreamInterceptor for Tamper {
 }
 
 pub fn tamper(site: Option<Site>) -> (StdArc<Tamper>, DynStreamInterceptor) {
-    let t = StdArc::new(Tamper { site, log: StdMutex::new(FaultLog::default()) });
+    tamper_many(site.into_iter().collect())
+}
+
+pub fn tamper_many(sites: Vec<Site>) -> (StdArc<Tamper>, DynStreamInterceptor) {
+    let t = StdArc::new(Tamper { sites, log: StdMutex::new(FaultLog::default()) });
     let t2 = StdArc::clone(&t);
     let dynamic: DynStreamInterceptor = Arc::new(move |ctx: &InspectContext, data: &mut Vec<u8>| t2.peek(ctx, data));
     (t, dynamic)
@@ -226,5 +249,6 @@ pub fn draw_site(inv: &BTreeMap<ChanKey, ChanStat>, filter: &dyn Fn(&ChanKey) ->
         chunk: r.below(s.chunks),
         offset: r.below(s.max_chunk.max(1)),
         pattern: r.pick(patterns).to_string(),
+        stream_off: None,
     })
 }
